@@ -217,7 +217,7 @@ theorem materialize_sql_keeps_content (σ : Leaves) (st : Store) (fuel : Nat) (t
             injection h with h; subst h
             have gM : Good σ (Rel.mat 0 name (ct.get t)) :=
               Good.atom _ rfl C.ok.wf C.ok.truthful (by show (ct.get t).engine.kind = _; rw [C.engine]; exact hk)
-            obtain ⟨_, W⟩ := good_wrap σ _ r gM rfl ha
+            obtain ⟨_, W⟩ := good_wrap σ _ r gM rfl rfl ha
             show sem σ r = _ ∧ (∀ c, c ∈ r.columns ↔ _) ∧ r.WF ∧ r.engine = _
             exact ⟨by rw [W.sem_eq]; exact C.sem_eq, fun c => (W.cols c).trans (C.cols c), W.ok.wf,
               by rw [W.engine]; exact C.engine⟩
